@@ -1269,3 +1269,60 @@ def check_detached(decode: Callable[[Any], Any], raw: bytes, view: Callable[[Any
     err = decode_detached(decode, raw, view, what, expect=expect, memview=memview)
     if err is not None:
         raise SelfCheckFailure(err)
+# probes for DERIVED VALUES that an object remembers: read every derived view (lengths, integer / hash forms, generic
+# views, type tags, checksums), change the object through its documented setters / attributes / by storing something else
+# in it, read every view again - what it shows then is what a FRESH object built directly with the final values shows
+# --------------------------------------------------------------------------------------------
+def read_views(obj: Any, views: Iterable, names: Optional[Iterable[str]] = None) -> Dict[str, Any]:
+    """`views` = ordered [(name, fn(obj) -> plain value)]; evaluates the views called `names` IN THAT ORDER (default: all, in
+    the order given) and returns {name: {"ok": value} | {"err": category}} - a view that raises is an outcome like any other
+    (the typed accessors of a holder raise for every kind but one)."""
+    table = list(views)
+    by_name = dict(table)
+    out: Dict[str, Any] = {}
+    for n in ([v[0] for v in table] if names is None else list(names)):
+        fn = by_name.get(n)
+        if fn is None:
+            continue
+        try:
+            out[n] = {"ok": fn(obj)}
+        except (SelfCheckFailure, InfraError):
+            raise
+        except Exception as e:  # noqa
+            out[n] = {"err": exc_category(e)}
+    return out
+
+
+def read_mutate_read(obj_factory: Callable[[], Any], views: Iterable, mutate: Callable[[Any], Any],
+                     fresh_factory: Callable[[], Any], what: str, first: Optional[Iterable[str]] = None,
+                     after: Optional[Iterable[str]] = None, out: Optional[Dict[str, Any]] = None) -> Optional[str]:
+    """Self-contained sequence on the real code:
+      obj = obj_factory(); the views `first` are read (default all; [] = none: the plain setter case);
+      mutate(obj) - documented setters / public attributes / re-assignment only, exceptions propagate (a setter that
+                    refuses a valid value is the caller's finding);
+      the views `after` are read (default all) in that order - the ORDER is part of the case: a view that refreshes a
+                    remembered value (pack() recomputes a checksum) hides a stale one read after it;
+      the same views are read in the same order on fresh_factory() - the object built directly with the final values.
+    Returns a description of the first difference, or None. `out` (if given) receives obj / before / after / fresh."""
+    table = list(views)
+    obj = obj_factory()
+    before = read_views(obj, table, first)
+    mutate(obj)
+    now = read_views(obj, table, after)
+    fresh = read_views(fresh_factory(), table, after)
+    if out is not None:
+        out.update(obj=obj, before=before, after=now, fresh=fresh)
+    for n in now:
+        if now[n] != fresh.get(n):
+            return (f"{what}: after {sorted(before) if before else 'nothing'} had been read and the object was then changed through its "
+                    f"documented setters, `{n}` shows {_short(now[n])} - an object built directly with the final values shows "
+                    f"{_short(fresh.get(n))} (a value remembered from before the change)")
+    return None
+
+
+def views_after_mutation(obj_factory: Callable[[], Any], views: Iterable, mutate: Callable[[Any], Any],
+                         fresh_factory: Callable[[], Any], what: str, first: Optional[Iterable[str]] = None,
+                         after: Optional[Iterable[str]] = None) -> Optional[str]:
+    """read all views, mutate, read all again, compare with the views of a fresh object; error string or None
+    (see read_mutate_read, which also hands back the object and what it showed)"""
+    return read_mutate_read(obj_factory, views, mutate, fresh_factory, what, first, after)
